@@ -13,7 +13,8 @@ out = ["<!-- FINDINGS:BEGIN -->", "### 7.1 Outcome (generated from known_finding
        "Every defect below was first reproduced on the real code by the property's own check (oracle failure with a replay,",
        "and a `decide`/`rfl` witness on the pinned variant of the model where one exists), then either repaired by a minimal",
        "unguarded `fix:` commit in /repo (hash given; the check passes on the repaired tree and reports the violation again when",
-       "the commit is reverted) or listed as a known finding.", "",
+       "the commit is reverted) or listed as a known finding. No fix commit edits an existing test; one early commit (01f8e97)",
+       "appended a regression test function of its own to pkg/packet/writer_test.go, every later one touches no test file.", "",
        "**Open known findings**", ""]
 for p in sorted(known):
     for c, w in known[p]:
